@@ -77,6 +77,10 @@ add("F11", ["C14"], "C14.dispatch|leaf|ConstructorPattern", "mimium-fmt prints C
 add("F11", ["C14"], "C14.dispatch|leaf|TypeDecl", "mimium-fmt prints TypeDecl nodes by bare token concatenation: `match s {` becomes `matchs{`, `type Shape = ..` becomes `typeShape=..` (findings/repro/f1.mmm); the output does not parse back to the same program")
 add("F11", ["C14"], "C14.dispatch|leaf|VariantDef", "mimium-fmt prints VariantDef nodes by bare token concatenation: `match s {` becomes `matchs{`, `type Shape = ..` becomes `typeShape=..` (findings/repro/f1.mmm); the output does not parse back to the same program")
 
+# ---- C19 -------------------------------------------------------------------------------------------------
+add("F15", ["C19"], "C19.env|env|compiler::mirgen::MacroFileEnvGuard::new|set_var", "macro expansion publishes the current source file through the process environment (MIMIUM_CURRENT_MACRO_FILE), which mimium-symphonia reads to resolve relative sample paths: with two threads compiling /a/x.mmm and /b/y.mmm, T1 sets /a/x.mmm, T2 sets /b/y.mmm, T1's Sampler macro resolves its path against /b")
+add("F15", ["C19"], "C19.env|env|compiler::mirgen::MacroFileEnvGuard::new|remove_var", "same defect: a compilation without a file path removes the variable while another thread's macro expansion relies on it; the Drop of one guard also restores a stale value under the other thread")
+
 
 def main():
     extra = os.path.join(HERE, "tools", "findings_more.py")
